@@ -1,2 +1,84 @@
-(* Properties_C04.v -- placeholder until the encoding proofs land. *)
-From HexVerif Require Import AsmSpec AsmLayout.
+(* Properties_C04.v -- assembler prefix encoding reconstructs every 32-bit operand exactly.
+   Model of hexasm's encoder: AsmLayout.v (num_nibbles, enc_size, emit_instr).  Decoder = the ISA's own operand rule
+   (AsmSpec.decode, proved to be what Isa.step does in AsmSpecProofs.decode_exec). *)
+From Coq Require Import ZArith List Lia.
+From HexVerif Require Import WMap Isa AsmModel AsmLayout AsmSpec AsmSpecProofs AsmEncodeProofs.
+Import ListNotations.
+Local Open Scope Z_scope.
+
+(* the emitted bytes are zero or more PFIX/NFIX bytes (NFIX only first, exactly when the value is negative) followed
+   by the instruction byte carrying the low nibble; the length is the one the size function announced (1..8) *)
+Theorem C04_shape : forall opc v, 0 <= opc < 14 -> int_range v ->
+  exists first rest, emit_instr opc v (enc_size v) = first ++ rest ++ [opc * 16 + v mod 16] /\
+    (first = [] \/ exists b, first = [b] /\ is_prefix b /\ (b / 16 = 15 <-> v < 0)) /\ Forall is_pfix rest /\
+    Z.of_nat (length (emit_instr opc v (enc_size v))) = enc_size v /\ 1 <= enc_size v <= 8.
+Proof.
+  intros opc v Ho Hv. pose proof (enc_size_ok v Hv) as [[A B] _].
+  destruct (emit_shape opc v (enc_size v) Ho A) as (f & r & E1 & E2 & E3 & E4).
+  exists f, r. repeat split; assumption.
+Qed.
+Print Assumptions C04_shape.
+
+(* decoding the emitted bytes with the ISA's operand rule, from a clear operand register, yields the opcode and
+   exactly the value modulo 2^32 -- for every int value (0, -1, every +-16^k boundary, INT_MAX, INT_MIN included) *)
+Theorem C04_encode_decode : forall img pos opc v, 0 <= opc < 14 -> int_range v ->
+  at_bytes img pos (emit_instr opc v (enc_size v)) ->
+  decode img pos = Some (opc, v mod W, pos + enc_size v).
+Proof. intros img pos opc v Ho Hv Hb. apply emit_decode; [assumption | apply enc_size_ok; assumption | assumption]. Qed.
+Print Assumptions C04_encode_decode.
+
+(* the same for every longer admissible length (label resolution pads an encoding to its planned length) *)
+Theorem C04_padded_encode_decode : forall img pos opc v s, 0 <= opc < 14 -> int_range v -> enc_size v <= s <= 8 ->
+  at_bytes img pos (emit_instr opc v s) ->
+  decode img pos = Some (opc, v mod W, pos + s).
+Proof.
+  intros img pos opc v s Ho Hv Hs Hb. apply emit_decode; [assumption | | assumption].
+  eapply size_ok_mono; [apply enc_size_ok; assumption | assumption].
+Qed.
+Print Assumptions C04_padded_encode_decode.
+
+(* executing them: from any state whose memory holds these bytes at pc, with a clear operand register, the processor
+   (Isa.step) passes the prefixes silently and reaches the instruction byte with exactly that operand; the
+   instruction then leaves the operand register clear *)
+Theorem C04_executes : forall img opc v s inp,
+  0 <= opc < 14 -> int_range v ->
+  at_bytes img (pc s) (emit_instr opc v (enc_size v)) -> oreg s = 0 -> 0 <= pc s -> pc s + enc_size v <= W ->
+  holds (mem s) img (pc s) (pc s + enc_size v) ->
+  exists s', Isa.run (Z.to_nat (enc_size v - 1)) s inp [] = ([], inp, s', Cut) /\
+             pc s' = pc s + enc_size v - 1 /\ areg s' = areg s /\ breg s' = breg s /\ mem s' = mem s /\
+             fetch s' / 16 = opc /\ Z.lor (oreg s') (fetch s' mod 16) = v mod W /\
+             (forall s'' inp'' ev, Isa.step s' inp = Isa.Ok (s'', inp'', ev) -> oreg s'' = 0).
+Proof.
+  intros img opc v s inp Ho Hv Hb Ho0 Hpc Hw Hh.
+  pose proof (C04_encode_decode img (pc s) opc v Ho Hv Hb) as Hd. unfold decode in Hd.
+  destruct (decode_exec _ _ _ _ _ _ _ Hd s inp eq_refl Ho0 Hpc Hw Hh) as [_ (s' & Hrun & P1 & P2 & P3 & P4 & P5 & P6 & P7 & P8 & P9)].
+  exists s'. replace (pc s + enc_size v - pc s - 1) with (enc_size v - 1) in Hrun by lia.
+  repeat split; try assumption.
+  intros s'' inp'' ev Hstep. eapply nonprefix_clears_oreg; [exact Hstep | rewrite P6; exact P7 | rewrite P6; exact P8].
+Qed.
+Print Assumptions C04_executes.
+
+(* literal spellings: a NUMBER token carries u in [0,2^32) (the lexer's `unsigned value`); written as an unsigned
+   literal it denotes u, written as '-' NUMBER it denotes -u modulo 2^32; both land in C int range *)
+Theorem C04_literal : forall u, 0 <= u < W ->
+  int_range (to_int u) /\ to_int u mod W = u /\ int_range (to_int (- u)) /\ to_int (- u) mod W = (- u) mod W.
+Proof.
+  intros u Hu. unfold to_int, int_range, W32, W in *.
+  rewrite (Z.mod_small u) by lia.
+  pose proof (Z.mod_pos_bound (- u) 4294967296 ltac:(lia)).
+  repeat split; destruct (2147483648 <=? u) eqn:E1; destruct (2147483648 <=? (- u) mod 4294967296) eqn:E2;
+    try apply Z.leb_le in E1; try apply Z.leb_gt in E1; try apply Z.leb_le in E2; try apply Z.leb_gt in E2; try lia;
+    try (rewrite Z.mod_small by lia; reflexivity);
+    try (replace (u - 4294967296) with (u + (-1) * 4294967296) by lia; rewrite Z.mod_add by lia; apply Z.mod_small; lia);
+    try (replace ((- u) mod 4294967296 - 4294967296) with ((- u) mod 4294967296 + (-1) * 4294967296) by lia; rewrite Z.mod_add by lia; apply Z.mod_mod; lia);
+    try (apply Z.mod_mod; lia).
+Qed.
+Print Assumptions C04_literal.
+
+(* non-vacuity and the boundary values the property names *)
+Example C04_int_min : emit_instr 3 (-2147483648) (enc_size (-2147483648)) = [248; 224; 224; 224; 224; 224; 224; 48]
+  /\ decode (bytes_map [248; 224; 224; 224; 224; 224; 224; 48]) 0 = Some (3, 2147483648, 8).
+Proof. split; vm_compute; reflexivity. Qed.
+Example C04_minus_257 : emit_instr 3 (-257) (enc_size (-257)) = [254; 239; 63]. Proof. vm_compute. reflexivity. Qed.
+Example C04_zero_and_minus_one : emit_instr 9 0 (enc_size 0) = [144] /\ emit_instr 9 (-1) (enc_size (-1)) = [255; 159].
+Proof. split; vm_compute; reflexivity. Qed.
